@@ -52,12 +52,13 @@ type c25flush struct {
 // c25life runs one process lifetime on disk d starting from logical state `logical`, recording flushes.
 // Returns the script. The disk records a snapshot after every durable operation.
 type c25world struct {
-	big     bool
-	r       *rand.Rand
-	kind    int
-	gen     map[string]int
-	nFlush  *int
-	flushes *[]c25flush
+	big        bool
+	reuseAfter map[string]int // dropped name -> flush count at the drop (the name may be used again after a later flush)
+	r          *rand.Rand
+	kind       int
+	gen        map[string]int
+	nFlush     *int
+	flushes    *[]c25flush
 }
 
 func (w *c25world) life(d *memdisk.Disk, p c25prod, logical c25state, nOps int, names []string) (script []string, err error) {
@@ -67,6 +68,16 @@ func (w *c25world) life(d *memdisk.Disk, p c25prod, logical c25state, nOps int, 
 	for op := 0; op < nOps; op++ {
 		base := names[r.Intn(len(names))]
 		n := fmt.Sprintf("%s%d", base, w.gen[base])
+		if at, wait := w.reuseAfter[n]; wait && open[n] == nil {
+			if *w.nFlush <= at {
+				w.gen[base]++ // no flush since the drop: do not touch the name yet, use a fresh one
+				delete(w.reuseAfter, n)
+				n = fmt.Sprintf("%s%d", base, w.gen[base])
+			} else {
+				delete(w.reuseAfter, n)
+				script = append(script, "name "+n+" is used again after its drop was flushed")
+			}
+		}
 		ensure := func() error {
 			if open[n] == nil {
 				db, err := p.OpenDB(n)
@@ -151,7 +162,15 @@ func (w *c25world) life(d *memdisk.Disk, p c25prod, logical c25state, nOps int, 
 				delete(open, n)
 				delete(kept, n)
 				delete(logical, n)
-				w.gen[base]++
+				if r.Intn(2) == 0 {
+					w.gen[base]++ // a re-created database gets a fresh name ...
+				} else {
+					// ... or, once a flush has carried the drop out, the very same name again
+					if w.reuseAfter == nil {
+						w.reuseAfter = map[string]int{}
+					}
+					w.reuseAfter[n] = *w.nFlush
+				}
 				script = append(script, "drop "+n)
 			}
 		case c < 15: // late open without writing
@@ -227,7 +246,7 @@ func c25judge(kind int, im memdisk.Image, flushes []c25flush) (string, string, i
 }
 
 func runC25(c *ev.Ctx) {
-	c.Rule = "histories of 30 operations over 2-4 databases (puts, deletes, 2-3 operation batches, close+drop with re-created databases under fresh names, late opens, flushes with unique ids) through flushable.SyncedPool and through flaggedproducer.Producer over the in-memory crash disk; the disk snapshots itself after EVERY durable operation (each put, delete, batch write, database drop - also those issued inside Flush: dirty marks, data batches, clean marks). " +
+	c.Rule = "histories of 30 operations over 2-4 databases (puts, deletes, 2-3 operation batches, close+drop with re-created databases under fresh names or, after a flush carried the drop out, under the very same name, late opens, flushes with unique ids) through flushable.SyncedPool and through flaggedproducer.Producer over the in-memory crash disk; the disk snapshots itself after EVERY durable operation (each put, delete, batch write, database drop - also those issued inside Flush: dirty marks, data batches, clean marks). " +
 		"For every snapshot: a new pool/producer over a copy, Initialize(Names(), nil). Oracle: an error (dirty / not synced / not initialised) is fine; otherwise the returned id must be a flush id of the ledger (nil = 'before the first flush', everything empty), every database of that flush holds exactly its contents at that flush (marker key ignored), databases absent at that flush are absent or empty. " +
 		"Second lifetime: from a sample of cleanly recovered crash points the history continues (10 more operations) and every crash point of the continuation is judged too. non-trivial = distinct (history, crash point) pairs lying inside a Flush call or directly after a database drop, in histories with >=3 databases and a drop between two flushes"
 	c.Assumptions = []string{"a batch write is atomic on the disk", "a crash loses everything not yet handed to the underlying database (buffered writes of the pool)", "Initialize is called with all database names present on disk"}
